@@ -84,7 +84,9 @@ func runCheck(o checkOpts) int {
 	prop := o.prop
 	evPath := filepath.Join(o.verif, "evidence", prop+".json")
 	os.MkdirAll(filepath.Dir(evPath), 0o755)
-	os.Remove(evPath)
+	if os.Getenv("ZVC_NOEVIDENCE") == "" {
+		os.Remove(evPath)
+	}
 	fatal := func(msg string) int {
 		// machinery failure: fail closed, with a VIOLATION line so nothing is silently skipped
 		rp := writeReplay(o, prop, "machinery", map[string]interface{}{"error": msg})
